@@ -94,6 +94,8 @@ def const_val(v):
         return to_val(v)
     if isinstance(v, list):
         return ('VList', [const_val(x) for x in v])
+    if isinstance(v, dict):
+        return ('VDict', [(name_bytes(k), const_val(x)) for k, x in dict.items(v)])
     raise Unsupported('constant %r' % (type(v),))
 
 
